@@ -566,10 +566,12 @@ class SCFG(Sized):
         # an arc through the inserted block instead.
         for name in predecessors:
             block = self.graph.pop(name)
-            jt = list(block.jump_targets)
+            # Only forward arcs are re-targeted, declared backedges keep
+            # their place among the jump targets.
+            jt = list(block._jump_targets)
             if successors:
                 for s in successors:
-                    if s in jt:
+                    if s in jt and s not in block.backedges:
                         if new_name not in jt:
                             jt[jt.index(s)] = new_name
                         else:
@@ -667,12 +669,14 @@ class SCFG(Sized):
         # an arc through the to be inserted block instead.
         for name in predecessors:
             block = self.graph[name]
-            jt = list(block.jump_targets)
+            # Only forward arcs are re-targeted, declared backedges keep
+            # their place among the jump targets.
+            jt = list(block._jump_targets)
             renamed: Dict[str, str] = {}
             # Need to create synthetic assignments for each arc from a
             # predecessors to a successor and insert it between the predecessor
             # and the newly created block
-            for s in sorted(set(jt).intersection(successors)):
+            for s in sorted(set(block.jump_targets).intersection(successors)):
                 synth_assign = self.name_gen.new_block_name(SYNTH_ASSIGN)
                 variable_assignment = {}
                 variable_assignment[branch_variable] = branch_variable_value
